@@ -205,6 +205,7 @@ def finish(ctx, level, coverage, assumptions):
     """Write the evidence file, print KNOWN-FINDING / VIOLATION lines, return exit code."""
     known = load_known()
     listed = {f["key"]: f for f in known.get("findings", []) if f["property"] == ctx.pid}
+    extra = ctx.pid.startswith("X")      # coverage beyond the listed properties (DESIGN.md section 11)
     new, hits = [], {}
     for v in ctx.violations:
         if v["key"] in listed:
@@ -224,7 +225,10 @@ def finish(ctx, level, coverage, assumptions):
                   open(replay, "w"), indent=1)
         for v in new[:5]:
             log("violation detail:", json.dumps(v)[:1500])
-        log("VIOLATION property=%s replay=%s" % (ctx.pid, replay))
+        if extra:
+            log("EXTRA-DEVIATION spec=%s replay=%s" % (ctx.pid, replay))
+        else:
+            log("VIOLATION property=%s replay=%s" % (ctx.pid, replay))
     coverage = dict(coverage)
     coverage.setdefault("mc_runs", ctx.mc)
     coverage.setdefault("tv_runs", ctx.tv)
@@ -234,8 +238,9 @@ def finish(ctx, level, coverage, assumptions):
               coverage=coverage, assumptions=assumptions,
               wall_s=round(time.time() - ctx.t0, 2), violations=len(new),
               known_findings_hit=sorted(hits.keys()))
-    os.makedirs(os.path.join(VERIF, "evidence"), exist_ok=True)
-    with open(os.path.join(VERIF, "evidence", ctx.pid + ".json"), "w") as f:
+    evdir = os.path.join(VERIF, "evidence", "extra") if extra else os.path.join(VERIF, "evidence")
+    os.makedirs(evdir, exist_ok=True)
+    with open(os.path.join(evdir, ctx.pid + ".json"), "w") as f:
         json.dump(ev, f, indent=1, default=str)
         f.write("\n")
     log("%s %s seed=%d: %s in %.1fs" % (ctx.pid, ctx.tier, ctx.seed,
